@@ -454,6 +454,16 @@ impl Action {
         fallback_status_code: u16,
         unit_trace: &mut UnitTrace,
     ) -> (u16, u16) {
+        // A rule without response status condition is decided at request time, before any backend
+        // response: an example that gives the backend status code must not hide it
+        if response_status_code != 0 {
+            let request_time_status_code = self.get_status_code(0, Some(unit_trace));
+
+            if request_time_status_code != 0 {
+                return (request_time_status_code, 0);
+            }
+        }
+
         let action_status_code = self.get_status_code(response_status_code, Some(unit_trace));
         if response_status_code == 0 && action_status_code == 0 {
             let final_status_code = self.get_status_code(fallback_status_code, Some(unit_trace));
